@@ -1,10 +1,10 @@
 """C19 — The orchestration script resumes correctly after an interruption at any point."""
 PROPERTY = "C19"
-LEVEL = "other"
+LEVEL = "proof"
 CONTRACT_MODULES = ["contracts.c19"]
 S = "nextflow_script."
 CARRIERS = [S + "examine_output_dir_to_determine_current_iteration", S + "get_selected_plates",
-            S + "run_next_retrospective_step", S + "run_next_prospective_step"]
+            S + "run_next_retrospective_step", S + "run_next_prospective_step", S + "main"]
 NATIVE = "c19.py"
 EXPLANATION = (
     "Contracts on the real functions of nextflow/scripts/batchie.py over an abstract file system (pyvc/lib/fs.py: "
@@ -26,9 +26,14 @@ EXPLANATION = (
     "directories anywhere' - a clean CI state is accepted and the resume point is the successor of the last completed "
     "step with its metadata; an interrupted step is refused (RuntimeError); every intermediate state of a step (after "
     "rmtree, between the two mkdirs, after makedirs, pipeline interrupted before metadata, pipeline finished) is again a "
-    "CI state, and removing the refused directory restores a clean one - hence any number of interruptions. NOT PROVED / "
-    "ASSUMED: what nextflow publishes and in which order (metadata last), determinism of the launched pipeline ('records "
-    "the same selection': C18), the text of the RuntimeError naming the directory, and main()'s loop (argparse; it decides whether another step is started in the same invocation) - these two only by the BOUNDED harness native/c19.py (real script on real directory trees, every single interruption point, batch sizes 1..4, both modes; pairs in the thorough tier); because main()'s loop is decisive for the prospective mode the property is claimed at level 'other', not 'proof'.")
+    "CI state, and removing the refused directory restores a clean one - hence any number of interruptions. (4) main(): selects the step function of --mode, passes the command line (outdir, screen, remaining arguments, batch size) "
+    "unchanged to every step, continues exactly while the step returns True and stops exactly when it returns False (so a "
+    "prospective invocation never crosses an iteration boundary: the step's own contract returns plate < batch_size-1). (5) the "
+    "RuntimeError of examine names a plate directory that is itself defective - never a completed step. NOT PROVED / ASSUMED: "
+    "what nextflow publishes and in which order (metadata last; external process), determinism of the launched pipeline "
+    "('records the same selection': C18), argparse (get_args), and the faithfulness of the file-system model - all listed in "
+    "the trusted base; additionally exercised by the BOUNDED harness native/c19.py (real script on real directory trees, every "
+    "single interruption point, batch sizes 1..4, both modes; pairs in the thorough tier).")
 TRUSTED = ["pyvc symbolic executor; z3 5.1", "abstract file system contracts (pyvc/lib/fs.py): glob lists exactly the matching entries once each in arbitrary order; "
            "makedirs/rmtree/pipeline-run effects; entry names iter_<n>/plate_<n> with decimal n>=0 and such entries are directories",
            "nextflow publishes screen_metadata.json only after the step's other outputs (external process)",
